@@ -8,6 +8,10 @@ checks = {
    technique="bounded-exhaustive enumeration of names (all octets × positions, all label-length sequences around the 63/255 limits, all strings ≤6-7 tokens over an escape alphabet) run on the real PackDomainName/UnpackDomainName/IsDomainName/IsFqdn against an independent reference name model",
    text="Every case of three finite spaces is executed on the real code and compared with a reference reader/writer of RFC 1035 names; complete within the stated bounds, nothing sampled.",
    note="Trusted: harness/ref/name (≈200 lines, RFC 1035 §2.3.4/§5.1). Names longer than the enumerated shapes and alphabets outside the token set are not covered."),
+ "C19": dict(cat="exploration", eng="E1", ref="§5 C19",
+   technique="bounded-exhaustive enumeration of names and name pairs (all names ≤3-4 labels over small escape-heavy label sets, all 256×256 single-octet label pairs, relative×origin products) on the real label helpers against a forward-scanning reference",
+   text="Every name / pair in the finite spaces is run through CountLabel, Split, SplitDomainName, NextLabel, PrevLabel, CompareDomainName, IsSubDomain, Fqdn, IsFqdn, CanonicalName, dnsutil.AddOrigin/TrimDomainName and compared with the wire label sequence; complete within bounds.",
+   note="Trusted: harness/ref/name. Names are in the library's presentation form as the property states; long names are not enumerated (the helpers have no length-dependent logic)."),
 }
 na_reason = "check not built yet in this session (planned in DESIGN.md §5); not claimed until it runs"
 m = {
